@@ -31,6 +31,10 @@ class StudioSpec(object):
         if name == 'collections.defaultdict':
             o = st.alloc('groupdict'); st.g['GD'] = z3.K(Val, z3.Empty(SeqV)); st.g['GDOM'] = z3.K(Val, False); return [(st, ('val', o))]
         if name == 'builtins.sorted':
+            if kw:
+                # another order than the default one on (category, ids) pairs: deterministic only if the key is injective on categories - outside
+                # the sidecar's reach, undecided (the bounded stand-in enumerates id lists and their permutations)
+                raise Unsupported('sorted with options: ' + ', '.join(sorted(kw)))
             if ex.is_kind(st, pos[0], 'groupitems'):
                 o = st.alloc('groupitems'); st.wr(o, 'sorted', B(True)); return [(st, ('val', o))]
             raise Unsupported('sorted of this value')
